@@ -161,12 +161,12 @@ def correspondence(ctx):
     return bad
 
 
-def oracle(sc, seeds):
+def oracle(sc, seeds, processes=None):
     ref = core.impl(lambda: train(sc, False))
     if isinstance(ref, core.ImplError):
         return {"sig": f"list-training-raises:{sc['kind']}", "what": repr(ref)}
     runs = [("synchronous", "synchronous")]
-    if len(seeds) > 1:
+    if processes if processes is not None else len(seeds) > 1:  # a pool of spawned workers per compute: seconds each, so only a few scenarios use it
         runs.append(("processes (real worker isolation)", "processes"))
     for s in seeds:
         runs += [(f"random-order seed {s}", sched.OrderScheduler(s, False)), (f"random-order seed {s}, isolated", sched.OrderScheduler(s, True))]
@@ -188,7 +188,10 @@ def search(ctx):
             sc["nparts"] = 1 + (i // 2) % len(sc["stats"])  # sweep the partition counts, odd and even
         ctx.count(f"search:{sc['kind']}:nparts={sc['nparts']}")
         ctx.case(["s", sc["kind"], sc["labels"], sc["nparts"]], nontrivial=sc["nparts"] >= 2)
-        f = oracle(sc, [int(ctx.rng.integers(0, 10**6))] if ctx.tier == "quick" else [int(s) for s in ctx.rng.integers(0, 10**6, 3)])
+        f = oracle(sc, [int(ctx.rng.integers(0, 10**6))] if ctx.tier == "quick" else [int(s) for s in ctx.rng.integers(0, 10**6, 3)],
+                   processes=(ctx.tier != "quick" and i < 6))
+        if ctx.tier != "quick" and i < 6:
+            ctx.count("search:processes-executor")
         if f and f["sig"] not in seen:
             seen.add(f["sig"])
             f["input"] = {k: sc[k] for k in ("kind", "C", "D", "rU", "rV", "jfa", "w", "m", "v", "U", "V", "Dd", "stats", "labels", "K", "nparts", "iters", "R", "seed")}
